@@ -90,6 +90,15 @@ def total(ctx):
     r.check(ok, 'text_input parses with tracking enabled', ti, construct=CLS + '.text_input', key='tracking',
             msg='text_input no longer passes tracking=1 to the parser: non-terminal spans are not propagated')
     pf = repo.func('bridgepoint.oal:parse')
+    tp_ = param_names(pf, skip_self=False)[0]
+    rebound = [n for n in ast.walk(pf) if isinstance(n, (ast.Assign, ast.AugAssign)) and
+               any(isinstance(t, ast.Name) and t.id == tp_ for t in (n.targets if isinstance(n, ast.Assign) else [n.target]))]
+    fwd = [n for n in ast.walk(pf) if isinstance(n, ast.Call) and call_attr(n) == 'text_input' and n.args and
+           src(n.args[0]) in (tp_, "%s + '\\n'" % tp_)]
+    r.check(not rebound and bool(fwd), 'parse() hands the given text to the lexer unmodified (only a final newline is appended)', pf,
+            construct='bridgepoint.oal:parse', key='text-unmodified',
+            msg='parse() rewrites its text before lexing (%s): offsets, columns and the recorded source substring then refer to a different text '
+                'than the one given' % (src(rebound[0])[:60] if rebound else 'argument of text_input is not the parameter'))
     r.check(any(isinstance(n, ast.Call) and call_attr(n) == 'text_input' for n in ast.walk(pf)),
             'parse() delegates to OALParser.text_input', pf, construct='bridgepoint.oal:parse', key='delegate',
             msg='parse() no longer calls text_input')
